@@ -9,9 +9,9 @@ import (
 
 	"verifharness/hx"
 
-	builderapi "github.com/attestantio/go-builder-client/api"
 	"github.com/attestantio/go-block-relay/services/blockauctioneer"
 	builderclient "github.com/attestantio/go-builder-client"
+	builderapi "github.com/attestantio/go-builder-client/api"
 	"github.com/attestantio/go-eth2-client/api"
 	apiv1 "github.com/attestantio/go-eth2-client/api/v1"
 	"github.com/attestantio/go-eth2-client/spec/bellatrix"
@@ -114,14 +114,15 @@ type c12Req struct {
 }
 
 type c12State struct {
-	md       *c12Majordomo
-	reqs     []c12Req
-	refDone  int
-	final    [2]c12Req
-	finalOK  bool
-	overlap  bool
-	allowed  map[string]bool
-	lastGood string
+	md        *c12Majordomo
+	reqs      []c12Req
+	refDone   int
+	final     [2]c12Req
+	finalOK   bool
+	finalBids int // bid requests made after the refreshes that returned
+	overlap   bool
+	allowed   map[string]bool
+	lastGood  string
 }
 
 func (m *c12Majordomo) Fetch(_ context.Context, _ string) ([]byte, error) {
@@ -271,6 +272,11 @@ func c12Body(st *c12State, seq, rs []string) {
 		lookup(&st.final[1], v2)
 		st.final[1].done = true
 		st.finalOK = true
+		// bid requests as a beacon node makes them (no auction was held for this parent: vouch runs one at once)
+		for _, a := range []*hAccount{v1, v2} {
+			_, _ = svc.BuilderBid(ctx, 3301, phase0.Hash32{2}, a.pubkey())
+			st.finalBids++
+		}
 	})
 	mc.Sleep(int64(5 * time.Second))
 }
@@ -309,6 +315,9 @@ func c12Check(st *c12State, seq, rs []string, r *mc.Result) mc.Verdict {
 	}
 	if !st.finalOK {
 		return fail("request-never-returned/final-lookup", "a proposer-setting lookup after the refreshes never returned")
+	}
+	if st.finalBids != 2 {
+		return fail("request-never-returned/final-bid-request", fmt.Sprintf("only %d of 2 bid requests made after the refreshes returned", st.finalBids))
 	}
 	for _, b := range r.Blocked {
 		if b.Class == "blocked" {
@@ -370,7 +379,7 @@ func init() {
 	hx.Register(&hx.Prop{
 		ID:    "C12",
 		Title: "The block relay keeps answering whatever the config source does",
-		Rule: "for every sequence of 2 (thorough 3) fetch outcomes over {doc A, doc B, doc U (one validator unresolvable), error, malformed, empty, '{}', 'null'} (the first consumed by the constructor) and every set of 1-2 concurrent requests over {lookup v1, lookup v2, auction v1, auction v2, registration round}: all interleavings of the refresher and the request goroutines on the real blockrelay service within the preemption bound (quick 1, thorough 2), followed by a further refresh and lookups; " +
+		Rule: "for every sequence of 2 (thorough 3) fetch outcomes over {doc A, doc B, doc U (one validator unresolvable), error, malformed, empty, '{}', 'null'} (the first consumed by the constructor) and every set of 1-2 concurrent requests over {lookup v1, lookup v2, auction v1, auction v2, registration round}: all interleavings of the refresher and the request goroutines on the real blockrelay service within the preemption bound (quick 1, thorough 2), followed by a further refresh, lookups and bid requests (as a beacon node makes them) for both validators; " +
 			"oracle: every call returns, no goroutine blocked, final lookups answer from the last good document (fallback if none); non-trivial = at least one contended scheduling point; distinct = distinct request-result vectors",
 		Assumptions: []string{
 			"RWMutex has Go's writer preference (a pending writer blocks new readers)",
